@@ -16,10 +16,10 @@ FILTERS = {"movimm": is_movimm}
 
 # property -> list of plans: (corpus, ctx, modes, quick sample size, thorough sample size, filter name, thorough-only)
 PLANS = {
-    "C01": [("C01", "solo0,solo37", "plain", 9000, None, None, False), ("C01", "solo37", "fit", 1500, None, None, False),
+    "C01": [("C01", "solo0,solo37", "plain", 9000, None, None, False), ("C01k", "solo0", "plain", None, None, None, False), ("C01", "solo37", "fit", 1500, None, None, False),
             ("C01", "edge", "fit", 1500, 12000, None, False, 16)],
     "C02": [(c, "solo0", "plain", 1400, None, None, False) for c in ("C02a", "C02b", "C02c", "C02d", "C02e", "C02f", "C02g", "C02h", "C02i", "C02j")]
-           + [("C02k", "solo0", "plain", 2500, None, None, False), ("C02l", "solo0", "plain", 2500, None, None, False)]
+           + [("C02k", "solo0", "plain", 2500, None, None, False), ("C02l", "solo0", "plain", 2500, None, None, False), ("C02m", "solo0", "plain", 1500, None, None, False)]
            + [("C02d", "solo0,mid,last", "plain,count", 500, 3000, None, False), ("C02h", "solo37", "fit", 700, 4000, None, False), ("C02g", "solo37", "fit", 400, 2000, None, False),
               ("C02k", "edge", "fit", 800, None, None, False, 16), ("C02e", "edge", "fit", 500, 3000, None, False, 16)],
     "C03": [("C03", "solo0", "plain", 7000, None, None, False), ("C03k", "solo0", "plain", None, None, None, False),
